@@ -44,12 +44,18 @@ theorem realResult_pos_trunc_int (neg : Bool) (v n x off Vt : Nat) (hv18 : 10 ^ 
         _ = 10 ^ (n - 1) * 10 ^ x := Nat.pow_add _ _ _
         _ ≤ v * 10 ^ x := Nat.mul_le_mul_right _ hvn
         _ ≤ Vt := ht1
-  · obtain ⟨p, hp, hclose⟩ := powerOfPositiveTen_close_trunc_int v x Vt hv18 hv (by omega) ht1 ht2
+  · obtain ⟨p, hp, hclose, hfloor⟩ := powerOfPositiveTen_close_trunc_int v x Vt hv18 hv (by omega) ht1 ht2
     have hp63 := powerOfPositiveTen_lt v x p hp
-    refine ⟨⟨.real, p ||| (if neg then 0x8000000000000000 else 0), off⟩, ?_, rfl, Or.inr ⟨rfl, or_sign_div p neg hp63, ?_⟩⟩
+    refine ⟨⟨.real, p ||| (if neg then 0x8000000000000000 else 0), off⟩, ?_, rfl, Or.inr ⟨rfl, or_sign_div p neg hp63, ?_, ?_⟩⟩
     · unfold realResult; simp [hv0, hadd, hr, hp]
     · simp only [Bool.false_eq_true, if_false, Nat.pow_zero, Nat.mul_one]
       rw [or_sign_mod p neg hp63]; exact hclose
+    · simp only [Bool.false_eq_true, if_false, Nat.pow_zero, Nat.mul_one]
+      rw [or_sign_mod p neg hp63]
+      intro hov
+      have := hfloor (Nat.le_of_lt hov)
+      unfold maxFiniteBits infBits at *
+      omega
 
 /-- the windowed scan over a run of at least 20 digits stops after 19 -/
 theorem scan19 (c : List Nat) (e : Nat) (neg : Bool) (off d1 : Nat) (xs : List Nat) (d20 : Nat) (he : e < 2 ^ 32)
